@@ -1,14 +1,18 @@
 (* C07 -- Value order / equality / hash laws hold and the collection filters obey their algebra.
    Only statements here; proofs live in MJ.C07.{Float,Proofs,Filters,FilterProofs}.
 
-   Domain: [wf] values -- machine integers in the range of their representation, floats are
-   64-bit patterns (every pattern, NaN included unless [nan_free] is asked for), maps satisfy
-   the BTreeMap invariant (strictly ascending keys).  No bound on sizes or nesting.
+   Domain: [wfn] values -- machine integers in the range of their representation, floats are
+   64-bit patterns (every pattern, NaN included unless [nan_free] is asked for); this is all
+   the order laws and the filter laws need, so they hold for both map implementations
+   (Ord::cmp walks the pairs of a map in iteration order whatever the implementation).
+   [wf] adds the BTreeMap invariant (strictly ascending keys) and is what the laws relating
+   the order to == and to the hash need for the default build; [map_build_wf] shows that the
+   maps the engine builds satisfy it.  No bound on sizes or nesting.
    [Known a b] (= cross_kind a b) describes the known-finding pair classes: a bool facing a
    number, or a list facing a lazy iterable, at the top or at corresponding positions of two
    containers. *)
 From Coq Require Import Sorting.Permutation.
-From MJ Require Import Common.Base C07.Model C07.Spec C07.Float C07.Proofs C07.Filters C07.FilterProofs.
+From MJ Require Import Common.Base C07.Model C07.Spec C07.Float C07.Proofs C07.MapProofs C07.Filters C07.FilterProofs.
 
 (* ---------------------------------------------------------------------------------------- *)
 (* the order                                                                                *)
@@ -21,28 +25,38 @@ Theorem number_order_exact : forall a b, is_number a = true -> is_number b = tru
   wf a = true -> wf b = true -> scalar_cmp a b = (nkey a ?= nkey b).
 Proof. exact num_cmp_key. Qed.
 
-Theorem cmp_refl : forall a, wf a = true -> vcmp a a = Eq.
-Proof. exact vcmp_refl. Qed.
+Theorem cmp_refl : forall a, wfn a = true -> vcmp a a = Eq.
+Proof. exact vcmp_refl_n. Qed.
 
-Theorem cmp_antisym : forall a b, wf a = true -> wf b = true -> vcmp b a = CompOpp (vcmp a b).
-Proof. exact vcmp_anti. Qed.
+Theorem cmp_antisym : forall a b, wfn a = true -> wfn b = true -> vcmp b a = CompOpp (vcmp a b).
+Proof. exact vcmp_anti_n. Qed.
 
-Theorem cmp_trans : forall a b c, wf a = true -> wf b = true -> wf c = true ->
+Theorem cmp_trans : forall a b c, wfn a = true -> wfn b = true -> wfn c = true ->
   vcmp a b <> Gt -> vcmp b c <> Gt -> vcmp a c <> Gt.
-Proof. exact vcmp_trans. Qed.
+Proof. exact vcmp_trans_n. Qed.
 
 (* defined for every pair *)
-Theorem cmp_total : forall a b, wf a = true -> wf b = true -> vcmp a b <> Gt \/ vcmp b a <> Gt.
-Proof. exact vcmp_total. Qed.
+Theorem cmp_total : forall a b, wfn a = true -> wfn b = true -> vcmp a b <> Gt \/ vcmp b a <> Gt.
+Proof. exact vcmp_total_n. Qed.
 
 (* Equal is a congruence: Equal values are interchangeable on either side of a comparison *)
-Theorem cmp_eq_compat : forall a b c, wf a = true -> wf b = true -> wf c = true ->
+Theorem cmp_eq_compat : forall a b c, wfn a = true -> wfn b = true -> wfn c = true ->
   vcmp a b = Eq -> vcmp a c = vcmp b c /\ vcmp c a = vcmp c b.
 Proof.
   intros a b c Wa Wb Wc E. split.
-  - destruct (vcmp_tbl a b c Wa Wb Wc) as (T1 & _). auto.
-  - destruct (vcmp_tbl c a b Wc Wa Wb) as (_ & T2 & _). auto.
+  - destruct (vcmp_tbl_n a b c Wa Wb Wc) as (T1 & _). auto.
+  - destruct (vcmp_tbl_n c a b Wc Wa Wb) as (_ & T2 & _). auto.
 Qed.
+
+(* the full invariant of the default build implies the numeric one *)
+Theorem wf_implies_wfn : forall v, wf v = true -> wfn v = true.
+Proof. exact wf_wfn. Qed.
+
+(* vm: Instruction::BuildMap -- a map literal built from well-formed keys and values is a
+   well-formed map (the BTreeMap invariant holds by construction) *)
+Theorem map_build_wf : forall pairs,
+  Forall (fun kv => wf (fst kv) = true /\ wf (snd kv) = true) pairs -> wf (VMap (map_build pairs)) = true.
+Proof. exact map_build_wf_proof. Qed.
 
 (* ---------------------------------------------------------------------------------------- *)
 (* the order agrees with ==, equal values hash identically                                  *)
@@ -90,12 +104,52 @@ Example seq_iterable_refuted :
 Proof. vm_compute. repeat split. Qed.
 
 (* ---------------------------------------------------------------------------------------- *)
+(* feature `preserve_order`: IndexMap-backed maps                                           *)
+(* ---------------------------------------------------------------------------------------- *)
+(* [veq_i] is == with IndexMap lookups (hash, then ==; == alone for a single entry); cmp and
+   the hash are the same functions as above.  The order laws above already cover this build.
+   The agreement of the order with == and the hash law are PARTIAL here: proved for values
+   that contain no map (there == does not depend on the map implementation).  Missing: values
+   with maps inside -- maps whose keys line up in iteration order are expected to satisfy the
+   laws (the correspondence run finds no counterexample), maps with the same content in
+   another insertion order refute them (known finding map-insertion-order, example below). *)
+Theorem cmp_eq_iff_veq_indexmap_partial : forall a b, map_free a = true ->
+  wf a = true -> wf b = true -> nan_free a = true -> ~ Known a b ->
+  (vcmp a b = Eq <-> veq_o Insertion a b = true).
+Proof.
+  intros a b MF Wa Wb NF NK. cbn [veq_o]. rewrite (veq_i_map_free a b MF). split.
+  - apply cmp_eq_veq; auto.
+  - intros E. apply veq_cmp_eq; auto. unfold Known in NK. destruct (cross_kind a b); congruence.
+Qed.
+
+Theorem veq_hash_indexmap_partial : forall a b, map_free a = true ->
+  wf a = true -> wf b = true -> nan_free a = true -> ~ Known a b ->
+  veq_o Insertion a b = true -> vhash a = vhash b.
+Proof.
+  intros a b MF Wa Wb NF NK. cbn [veq_o]. rewrite (veq_i_map_free a b MF). intros E.
+  apply veq_hash_eq; auto. unfold Known in NK. destruct (cross_kind a b); congruence.
+Qed.
+
+Example map_insertion_order_refuted :
+  let m1 := VMap (map_build_o Insertion [(VStr false [97], VInt W_I64 1); (VStr false [98], VInt W_I64 2)]) in
+  let m2 := VMap (map_build_o Insertion [(VStr false [98], VInt W_I64 2); (VStr false [97], VInt W_I64 1)]) in
+  veq_o Insertion m1 m2 = true /\ vcmp m1 m2 = Lt /\ hash_eq m1 m2 = false /\
+  cross_kind m1 m2 = false /\ reordered m1 m2 = true /\ Known_o Insertion m1 m2 /\
+  (* the same two literals under the default build are one and the same map *)
+  VMap (map_build_o Sorted [(VStr false [98], VInt W_I64 2); (VStr false [97], VInt W_I64 1)]) =
+  VMap (map_build_o Sorted [(VStr false [97], VInt W_I64 1); (VStr false [98], VInt W_I64 2)]) /\
+  (* a single-entry IndexMap is searched with == alone: {1: x}[true] is defined there *)
+  map_get_o Insertion (VBool true) [(VInt W_I64 1, VNone)] = Some VNone /\
+  map_get_o Sorted (VBool true) [(VInt W_I64 1, VNone)] = None.
+Proof. vm_compute. repeat split; auto. Qed.
+
+(* ---------------------------------------------------------------------------------------- *)
 (* the filters                                                                              *)
 (* ---------------------------------------------------------------------------------------- *)
 
 (* sort: a stable ordered permutation of the items, for every keyword option.  [sort_cmp] is
    the comparison the filter sorts by (key extraction, case folding, reversal). *)
-Theorem sort_sorted_perm_stable : forall cs rev attr v items, wf v = true -> iter_items v = Ok items ->
+Theorem sort_sorted_perm_stable : forall cs rev attr v items, wfn v = true -> iter_items v = Ok items ->
   exists out, f_sort cs rev attr v = Ok (VSeq out) /\ SortedStablePerm (sort_cmp cs rev attr) items out.
 Proof. exact sort_law_values. Qed.
 
@@ -107,13 +161,13 @@ Proof. exact sort_cmp_reverse. Qed.
 
 (* unique: an order-preserving subsequence without two Equal keys in which every key of the
    input is still represented *)
-Theorem unique_subseq_nodup : forall cs attr v items, wf v = true -> iter_items v = Ok items ->
+Theorem unique_subseq_nodup : forall cs attr v items, wfn v = true -> iter_items v = Ok items ->
   exists out, f_unique cs attr v = Ok (VSeq out) /\ UniqueLaw vcmp (unique_key cs attr) items out.
 Proof. exact unique_law_values. Qed.
 
 (* groupby: a partition by key -- the groups concatenate to the input stably sorted by key,
    every group is non-empty with all keys Equal to its label, labels strictly ascend *)
-Theorem groupby_partition : forall cs key dflt v items, wf v = true -> wf dflt = true -> iter_items v = Ok items ->
+Theorem groupby_partition : forall cs key dflt v items, wfn v = true -> wfn dflt = true -> iter_items v = Ok items ->
   exists groups, f_groupby cs key dflt v = Ok (VSeq (map (fun g => VSeq [fst g; VIter LzUnsized (snd g)]) groups)) /\
                  GroupLaw (cmp_helper cs false) (get_path_or_default key dflt) items groups.
 Proof. exact groupby_law_values. Qed.
@@ -159,11 +213,64 @@ Example reverse_reviter_refuted :
 Proof. vm_compute. repeat split. Qed.
 
 (* min / max: members that bound all others; undefined for an empty input *)
-Theorem min_max_bound : forall v items, wf v = true -> iter_items v = Ok items ->
+Theorem min_max_bound : forall v items, wfn v = true -> iter_items v = Ok items ->
   exists mn mx, f_min v = Ok mn /\ f_max v = Ok mx /\
     (items = [] -> mn = VUndef /\ mx = VUndef) /\
     (items <> [] -> IsMin vcmp items mn /\ IsMax vcmp items mx).
 Proof. exact min_max_values. Qed.
+
+(* dictsort: the pairs of the map, stably sorted by key or by value (case folding and
+   reversal as for sort); anything that is not a map is rejected *)
+Theorem dictsort_sorted_perm_stable : forall by_value cs rev v,
+  match v with
+  | VMap kvs => wfn v = true ->
+      exists out, f_dictsort by_value cs rev v = Ok (VSeq (map pair_value out)) /\
+                  SortedStablePerm (dictsort_cmp by_value cs rev) kvs out
+  | _ => f_dictsort by_value cs rev v = Err E_InvalidOperation
+  end.
+Proof. exact dictsort_law_values. Qed.
+
+(* items: the (key, value) pairs in iteration order -- what dictsort sorts *)
+Theorem items_pairs : forall v,
+  match v with
+  | VMap kvs => f_items v = Ok (VIter LzUnsized (map pair_value kvs))
+  | _ => f_items v = Err E_InvalidOperation
+  end.
+Proof. exact items_values. Qed.
+
+(* select / reject: an order-preserving partition into the items that are true and the rest *)
+Theorem select_reject_partition : forall v items, iter_items v = Ok items ->
+  exists sel rej, f_select false v = Ok (VSeq sel) /\ f_select true v = Ok (VSeq rej) /\
+    Subseq sel items /\ Subseq rej items /\
+    Forall (fun x => is_true x = true) sel /\ Forall (fun x => is_true x = false) rej /\
+    Permutation items (sel ++ rej).
+Proof. exact select_reject_values. Qed.
+
+(* map(attribute=..): pointwise; fails exactly for an undefined item without a default *)
+Theorem map_attribute_pointwise : forall key dflt v items, iter_items v = Ok items ->
+  (f_map_attr key dflt v = Ok (VSeq (map (get_path_or_default key dflt) items))) \/
+  (f_map_attr key dflt v = Err E_UndefinedError /\ dflt = VUndef /\ In VUndef items).
+Proof. exact map_attr_values. Qed.
+
+(* sum of (fewer than 2^62) i64 integers: the exact mathematical sum, so it is additive over
+   concatenation and does not depend on the order of the items *)
+Theorem sum_exact : forall v items, iter_items v = Ok items -> Forall is_i64_int items -> lenZ items < 2 ^ 62 ->
+  f_sum v = Ok (VInt W_I128 (zsum items)).
+Proof. exact sum_exact_values. Qed.
+
+Theorem sum_additive_order_independent : forall a b,
+  zsum (a ++ b) = zsum a + zsum b /\ (Permutation a b -> zsum a = zsum b).
+Proof. intros a b. split; [apply zsum_app|apply zsum_perm]. Qed.
+
+(* join (no auto-escaping; strings and integers): the renderings with the joiner in between;
+   joining a concatenation is joining the halves with one more joiner *)
+Theorem join_intercalate : forall d v items parts, iter_items v = Ok items -> rendered items = Some parts ->
+  f_join d v = Ok (VStr false (intercalate d parts)).
+Proof. exact join_values. Qed.
+
+Theorem join_append : forall d a b, a <> [] -> b <> [] ->
+  intercalate d (a ++ b) = intercalate d a ++ d ++ intercalate d b.
+Proof. exact intercalate_app. Qed.
 
 (* none of the filters panics, whatever the input and the options *)
 Theorem filters_never_panic :
@@ -204,6 +311,10 @@ Print Assumptions cmp_antisym.
 Print Assumptions cmp_trans.
 Print Assumptions cmp_total.
 Print Assumptions cmp_eq_compat.
+Print Assumptions wf_implies_wfn.
+Print Assumptions map_build_wf.
+Print Assumptions cmp_eq_iff_veq_indexmap_partial.
+Print Assumptions veq_hash_indexmap_partial.
 Print Assumptions cmp_eq_iff_veq.
 Print Assumptions cmp_eq_implies_veq.
 Print Assumptions veq_hash.
@@ -216,4 +327,12 @@ Print Assumptions batch_concat.
 Print Assumptions slice_concat_balanced.
 Print Assumptions reverse_involutive.
 Print Assumptions min_max_bound.
+Print Assumptions dictsort_sorted_perm_stable.
+Print Assumptions items_pairs.
+Print Assumptions select_reject_partition.
+Print Assumptions map_attribute_pointwise.
+Print Assumptions sum_exact.
+Print Assumptions sum_additive_order_independent.
+Print Assumptions join_intercalate.
+Print Assumptions join_append.
 Print Assumptions filters_never_panic.
